@@ -40,7 +40,8 @@ import (
 // so the fake time at which a request is first seen is the dispatch instant.
 
 type c26Op struct {
-	Op   string `json:"op"` // enq adv sync
+	Op   string `json:"op"` // enq adv sync burst
+	N    int    `json:"n,omitempty"` // burst: number of goroutines, ids ID..ID+N-1, destination (host 0, key 0, dataset "bds<D>")
 	ID   uint64 `json:"id,omitempty"`
 	H    int    `json:"h,omitempty"`
 	K    int    `json:"k,omitempty"`
@@ -89,6 +90,8 @@ func c26Gen(r *rand.Rand, tier string, i int) any {
 	if tier == "thorough" {
 		nops = 4 + r.Intn(60)
 	}
+	splitfail := !big && r.Intn(100) < 7 // a batch split into >= 2 requests whose first / middle request fails in transport
+	concurrent := !big && !splitfail && r.Intn(100) < 10
 	nh, nk, nd := 1+r.Intn(3), 1+r.Intn(2), 1+r.Intn(3)
 	badHosts := r.Intn(100) < 10
 	id := uint64(0)
@@ -119,7 +122,43 @@ func c26Gen(r *rand.Rand, tier string, i int) any {
 		}
 		nops = r.Intn(6)
 	}
+	if splitfail {
+		// k events of exactly 1 000 000 bytes to one destination: 4 per request, so k in 6..11 gives 2-3 requests;
+		// the request starting at event 1+4p fails (network error, two timeouts, timeout then error, 429 then error)
+		in.Max = 12 + r.Intn(4)
+		k := 6 + r.Intn(6)
+		first := id + 1
+		for e := 0; e < k; e++ {
+			ev := newEv(1_000_000)
+			ev.H, ev.K, ev.D = 0, 0, 0
+			in.Ops = append(in.Ops, ev)
+		}
+		parts := (k + 3) / 4
+		p := r.Intn(parts - 1) // never the last one only: a non-final part fails
+		fail := [][]c26Beh{{{Kind: "neterr"}}, {{Kind: "timeout"}, {Kind: "timeout"}}, {{Kind: "timeout"}, {Kind: "neterr"}},
+			{{Kind: "http", Code: 429, RA: "secs:1"}, {Kind: "neterr"}}}[r.Intn(4)]
+		in.Beh[strconv.FormatUint(first+uint64(4*p), 10)] = fail
+		if parts > 2 && r.Intn(2) == 0 {
+			in.Beh[strconv.FormatUint(first+uint64(4*((p+1)%(parts-1))), 10)] = []c26Beh{{Kind: "neterr"}}
+		}
+		nops = r.Intn(5)
+	}
+	burstNo := 0
+	if concurrent {
+		in.Max = 50
+	}
 	for j := 0; j < nops; j++ {
+		if concurrent && r.Intn(3) == 0 {
+			// many rounds: N goroutines released together enqueue the first events of a brand-new destination
+			rounds := 10 + r.Intn(20)
+			for k := 0; k < rounds; k++ {
+				n := 2 + r.Intn(10)
+				in.Ops = append(in.Ops, c26Op{Op: "burst", ID: id + 1, N: n, D: burstNo, Size: 80})
+				id += uint64(n)
+				burstNo++
+			}
+			continue
+		}
 		switch x := r.Intn(100); {
 		case x < 62:
 			size := 60 + r.Intn(300)
@@ -161,8 +200,19 @@ func c26Gen(r *rand.Rand, tier string, i int) any {
 		}
 	}
 	// scripted server behaviour for about half of the ids (used when the id is first in a batch)
+	burstIDs := map[uint64]bool{}
+	for _, o := range in.Ops {
+		if o.Op == "burst" {
+			for x := 0; x < o.N; x++ {
+				burstIDs[o.ID+uint64(x)] = true
+			}
+		}
+	}
 	for k := uint64(1); k <= id; k++ {
-		if r.Intn(100) < 50 {
+		if r.Intn(100) < 50 || burstIDs[k] || (splitfail && k <= 12) {
+			continue
+		}
+		if _, scripted := in.Beh[strconv.FormatUint(k, 10)]; scripted {
 			continue
 		}
 		n := 1 + r.Intn(2)
@@ -382,6 +432,11 @@ func (s *c26Server) proxy(req *http.Request) (*url.URL, error) {
 		ds = "?" + p
 	}
 	dest := c26Dest(c26Index(c26Hosts, host), c26Index(c26Keys, req.Header.Get("X-Honeycomb-Team")), c26Index(c26Datasets, ds))
+	if strings.HasPrefix(ds, "bds") { // destinations of the concurrent first-event bursts
+		if n, err := strconv.Atoi(strings.TrimPrefix(ds, "bds")); err == nil && c26Index(c26Hosts, host) == 0 && c26Index(c26Keys, req.Header.Get("X-Honeycomb-Team")) == 0 {
+			dest = uint64(1000 + n)
+		}
+	}
 
 	s.mu.Lock()
 	defer s.mu.Unlock()
@@ -642,6 +697,8 @@ func c26Run(raw json.RawMessage) (Case, error) {
 	}
 
 	var ops, syncs, human []string
+	var burstIDs []uint64
+	burstDests := map[uint64]bool{}
 	var bad = map[uint64]bool{}
 	tags := map[string]bool{}
 	for _, o := range in.Ops {
@@ -690,6 +747,37 @@ func c26Run(raw json.RawMessage) (Case, error) {
 			}
 			ops = append(ops, cq.App("Adv", cq.Z(o.Dur)))
 			human = append(human, fmt.Sprintf("adv %d", o.Dur))
+		case "burst":
+			if o.N < 1 || o.N > 64 {
+				return Case{}, fmt.Errorf("C26: bad burst size")
+			}
+			dest := uint64(1000 + o.D)
+			burstDests[dest] = true
+			evs := make([]*types.Event, o.N)
+			for x := 0; x < o.N; x++ {
+				ev, size, err := c26MakeEvent(c26Op{ID: o.ID + uint64(x), Size: 80})
+				if err != nil {
+					return Case{}, err
+				}
+				ev.Dataset = fmt.Sprintf("bds%d", o.D)
+				evs[x] = ev
+				burstIDs = append(burstIDs, o.ID+uint64(x))
+				ops = append(ops, fmt.Sprintf("Enq {| eid := %s; edest := %s; esize := %s |}", cq.N(o.ID+uint64(x)), cq.N(dest), cq.Z(int64(size))))
+			}
+			start := make(chan struct{})
+			var wg sync.WaitGroup
+			for x := range evs {
+				wg.Add(1)
+				go func(ev *types.Event) {
+					defer wg.Done()
+					<-start
+					dt.EnqueueEvent(ev)
+				}(evs[x])
+			}
+			close(start)
+			wg.Wait()
+			tags["concurrent-first-events"] = true
+			human = append(human, fmt.Sprintf("burst of %d goroutines, ids %d.., new destination %d", o.N, o.ID, dest))
 		case "sync":
 			g, p := syncWait()
 			ops = append(ops, "Sync")
@@ -719,6 +807,14 @@ func c26Run(raw json.RawMessage) (Case, error) {
 	sort.SliceStable(reqs, func(a, b int) bool { return reqs[a].first < reqs[b].first })
 	var reqTerms, behTerms []string
 	seenBeh := map[uint64]bool{}
+	for _, rq := range reqs {
+		if burstDests[rq.dest] {
+			// the order in which concurrently enqueued events entered the batch is a scheduling choice
+			sort.Slice(rq.ids, func(a, b int) bool { return rq.ids[a] < rq.ids[b] })
+			rq.first = rq.ids[0]
+		}
+	}
+	sort.SliceStable(reqs, func(a, b int) bool { return reqs[a].first < reqs[b].first })
 	for _, rq := range reqs {
 		reqTerms = append(reqTerms, fmt.Sprintf("{| o_first := %s; o_dest := %s; o_ids := %s; o_size := %s; o_wire := %s; o_attempts := %s; o_time := %s |}",
 			cq.N(rq.first), cq.N(rq.dest), cq.ListN(rq.ids), cq.Z(int64(rq.size)), cq.Z(int64(rq.wire)), cq.N(uint64(rq.attempts)), cq.Z(rq.time)))
@@ -760,14 +856,14 @@ func c26Run(raw json.RawMessage) (Case, error) {
 	}
 	tags[fmt.Sprintf("max:%d", in.Max)] = true
 	tags[fmt.Sprintf("bt:%d", in.BT)] = true
-	coq := fmt.Sprintf("{| c_max := %s; c_bt := %s; c_t0 := %s; c_ops := %s; c_beh := %s; c_bad := %s; c_reqs := %s; c_sleeps := %s; c_syncs := %s; c_sync_timeouts := %s; c_gauge := %s; c_cnt := %s |}",
+	coq := fmt.Sprintf("{| c_max := %s; c_bt := %s; c_t0 := %s; c_ops := %s; c_beh := %s; c_bad := %s; c_reqs := %s; c_sleeps := %s; c_syncs := %s; c_sync_timeouts := %s; c_gauge := %s; c_cnt := %s; c_burst := %s |}",
 		cq.Z(int64(in.Max)), cq.Z(in.BT), cq.Z(t0), cq.List(ops), cq.List(behTerms), cq.ListN(badList), cq.List(reqTerms),
-		cq.ListZ(sleeps), cq.List(syncs), cq.N(uint64(syncTimeouts)), cq.Z(gauge), cq.ListZ(cnt))
+		cq.ListZ(sleeps), cq.List(syncs), cq.N(uint64(syncTimeouts)), cq.Z(gauge), cq.ListZ(cnt), cq.ListN(burstIDs))
 	var tl []string
 	nontriv := false
 	for t := range tags {
 		tl = append(tl, t)
-		if t == "retried" || t == "oversize-event" || t == "body-near-5MB" || t == "dispatch-at-tick-instant" {
+		if t == "retried" || t == "oversize-event" || t == "body-near-5MB" || t == "dispatch-at-tick-instant" || t == "concurrent-first-events" {
 			nontriv = true
 		}
 	}
